@@ -67,11 +67,16 @@ def shards(tier):
 
 
 def unless_outcome(text, du, w):
-    k, spec = impl.outcome(impl.build, 'dt_off', text, ['x', 'y'], unit=du)
-    if k != 'ok':
-        return (k,)
-    k, v = impl.outcome(impl.dt_evaluate, spec, w, [i * (1 if du == 's' else 1000) for i in range(len(w['x']))])
-    return (k, [p[1] for p in v] if k == 'ok' else None)
+    from ..runner import time_limit
+    try:
+        with time_limit(10):
+            k, spec = impl.outcome(impl.build, 'dt_off', text, ['x', 'y'], unit=du)
+            if k != 'ok':
+                return (k,)
+            k, v = impl.outcome(impl.dt_evaluate, spec, w, [i * (1 if du == 's' else 1000) for i in range(len(w['x']))])
+            return (k, [p[1] for p in v] if k == 'ok' else None)
+    except (TimeoutError, MemoryError):
+        return ('no result within 10 s',)
 
 
 def check_unless(case):
@@ -79,6 +84,8 @@ def check_unless(case):
     for w in traces:
         a = unless_outcome(case['text'], case['unit'], w)
         b = unless_outcome(case['expansion'], case['unit'], w)
+        if a[0].startswith('no result') or b[0].startswith('no result'):
+            return '`%s`: %r, expansion `%s`: %r on %r' % (case['text'], a, case['expansion'], b, w)
         if a != b and not (a[0] == b[0] == 'ok' and refsem.same_list(a[1], b[1])):
             return '`%s` gives %r but its documented expansion `%s` gives %r on %r' % (case['text'], a, case['expansion'], b, w)
     return None
